@@ -432,18 +432,27 @@ Proof.
 Qed.
 Print Assumptions GenTie_modular_rs.
 
-(* src/algorithms/gcd/matrix.rs: the tuple struct Matrix, compose, apply_u128 and from_u64, whose
-   `loop { .. return .. }` runs with the round bound 70 of the translator's table *)
+(* src/algorithms/gcd/matrix.rs: the tuple struct Matrix, compose, apply_u128, from_u64 (whose
+   `loop { .. return .. }` runs with the round bound 70 of the translator's table), from_u64_prefix
+   (`while a3 >= LIMIT { .. break .. }`, round bound 64) and from_u128_prefix *)
 Theorem GenTie_matrix_rs : forall s o a b r0 r1,
   wf_mat s -> wf_mat o -> 0 <= r0 < B -> 0 <= r1 < B ->
   g_mat_compose (mat_tuple s) (mat_tuple o) = omap mat_tuple (GcdMatrix.compose s o) /\
   g_mat_apply_u128 (mat_tuple s) a b = Val (GcdMatrix.apply_u128 s a b) /\
-  g_mat_from_u64 r0 r1 = omap mat_tuple (GcdMatrix.from_u64 r0 r1).
+  g_mat_from_u64 r0 r1 = omap mat_tuple (GcdMatrix.from_u64 r0 r1) /\
+  g_mat_from_u64_prefix r0 r1 = omap mat_tuple (GcdMatrix.from_u64_prefix r0 r1).
 Proof.
   intros s o a b r0 r1 Hs Ho H0 H1.
-  exact (conj (g_mat_compose_eq s o Hs Ho) (conj (g_mat_apply_u128_eq s a b) (g_mat_from_u64_eq r0 r1 H0 H1))).
+  exact (conj (g_mat_compose_eq s o Hs Ho) (conj (g_mat_apply_u128_eq s a b)
+        (conj (g_mat_from_u64_eq r0 r1 H0 H1) (g_mat_from_u64_prefix_eq r0 r1 H0 H1)))).
 Qed.
 Print Assumptions GenTie_matrix_rs.
+
+Theorem GenTie_matrix_u128 : forall r0 r1,
+  0 <= r0 < BB -> 0 <= r1 ->
+  g_mat_from_u128_prefix r0 r1 = omap mat_tuple (GcdMatrix.from_u128_prefix r0 r1).
+Proof. exact g_mat_from_u128_prefix_eq. Qed.
+Print Assumptions GenTie_matrix_u128.
 
 (* the premises are satisfiable and the generated code computes: reciprocal(2^63) = 2^64 - 1 *)
 Example GenTie_nonvacuous :
@@ -467,6 +476,8 @@ Example GenTie_nonvacuous :
   g_bitxor 65 2 [5; 1] [3; 1] = Val [6; 0] /\
   g_leading_zeros 65 2 [5; 0] = Val 62 /\
   g_mat_from_u64 240 46 = Val (9, 47, 23, 120, false) /\
+  g_mat_from_u64_prefix (2 ^ 63 + 12345) (2 ^ 62 + 999) = Val (0, 1, 1, 2, false) /\
+  g_mat_from_u64_prefix (2 ^ 63 + 12345) 5700357408780482764 = Val (1009150, 1632839, 1536909, 2486771, false) /\
   g_mat_compose (1, 2, 3, 4, true) (5, 6, 7, 8, false) = Val (19, 22, 43, 50, false) /\
   g_add_mod 65 2 [2 ^ 64 - 1; 1] [2 ^ 64 - 1; 1] [2 ^ 64 - 3; 1] = Val [4; 0] /\
   g_u_mul_redc 64 1 [3] [5] [15] 0x1111111111111111 = Val [0] /\
